@@ -49,10 +49,29 @@ void harness(void)
 #else
     unsigned char *s = buf;
 #endif
+#ifdef VF_STRUCT6
+    /* structured family to full length: one symbolic hex-digit fill, ':' at up to 9 and '.' at up to 4
+     * symbolic positions, one arbitrary byte at a symbolic position: every IPv6 shape (groups before /
+     * after '::', group widths 0-5 and more, dotted-quad tail) */
+    unsigned char fill = nondet_uchar(), odd = nondet_uchar();
+    VF_ASSUME(ref_ishex(fill) && odd != 0);
+    unsigned cp[9], dp[4], op = nondet_uint();
+    for (unsigned k = 0; k < 9; k++) cp[k] = nondet_uint();
+    for (unsigned k = 0; k < 4; k++) dp[k] = nondet_uint();
+#endif
     for (unsigned i = 0; i < VF_N + VF_CTX; i++) {
         if (i >= n + c) break;
         s[i] = nondet_uchar();
         VF_ASSUME(s[i] != 0);
+#ifdef VF_STRUCT6
+        if (i < n) {
+            unsigned char ch = fill;
+            for (unsigned k = 0; k < 9; k++) if (i == cp[k]) ch = ':';
+            for (unsigned k = 0; k < 4; k++) if (i == dp[k]) ch = '.';
+            if (i == op) ch = odd;
+            s[i] = ch;
+        }
+#endif
 #ifdef VF_ALPHABET_IP        /* restrict content to the bytes an address can contain plus one arbitrary other byte */
         if (i < n) VF_ASSUME(ref_ishex(s[i]) || s[i] == ':' || s[i] == '.' || s[i] == 'x');
 #endif
